@@ -2,6 +2,7 @@
 type and xsi:type substitute, looked up by qname / by fields / by xsi:type)."""
 
 from dataclasses import dataclass, field
+from decimal import Decimal
 from typing import Dict, List, Optional
 
 NS_I = "urn:vf:c14:i"
@@ -60,6 +61,29 @@ class Nums:
     t: List[int] = field(default_factory=list, metadata={"type": "Element", "tokens": True})
 
 
+@dataclass
+class Price:  # simple content: text value + attribute
+    class Meta:
+        name = "price"
+        namespace = NS_I
+
+    value: Optional[Decimal] = field(default=None)
+    currency: Optional[str] = field(default=None, metadata={"type": "Attribute"})
+
+
+@dataclass
+class Mix:  # element declared before a compound field and a wildcard (document order != metadata bucket order)
+    class Meta:
+        name = "mix"
+        namespace = NS_I
+
+    first: Optional[str] = field(default=None, metadata={"type": "Element"})
+    choice: List[object] = field(default_factory=list, metadata={"type": "Elements", "choices": ({"name": "a", "type": int}, {"name": "b", "type": str})})
+    price: Optional[Price] = field(default=None, metadata={"type": "Element"})
+    rest: List[object] = field(default_factory=list, metadata={"type": "Wildcard", "namespace": "##other"})
+    last: Optional[int] = field(default=None, metadata={"type": "Element"})
+
+
 # --- the known-finding trigger (kept out of the main operation pool) -------------------------
 @dataclass
 class Shared:
@@ -93,4 +117,11 @@ class Late{n}:
         namespace = "urn:vf:c14:late"
     x: Optional[int] = field(default=None, metadata={{"type": "Element"}})
     only_late{n}: Optional[str] = field(default=None, metadata={{"type": "Element"}})
+
+@dataclass
+class Twin{n}:  # every late module declares a class for the same qualified name: the last imported one wins
+    class Meta:
+        name = "twin"
+        namespace = "urn:vf:c14:late"
+    gen: str = field(default="{n}", metadata={{"type": "Attribute"}})
 '''
